@@ -532,6 +532,17 @@ func (fr *Frame) inline(v ssa.Value, fn *ssa.Function, c *ssa.CallCommon, args [
 
 // valueNamed: does the source-level local `name` denote SSA value v (by debug information)?
 func (fr *Frame) valueNamed(v ssa.Value, name string) bool {
+	// an argument of interface type is the conversion of the named value
+	for i := 0; i < 3; i++ {
+		switch c := v.(type) {
+		case *ssa.MakeInterface:
+			v = c.X
+		case *ssa.ChangeInterface:
+			v = c.X
+		case *ssa.ChangeType:
+			v = c.X
+		}
+	}
 	for _, b := range fr.fn.Blocks {
 		for _, in := range b.Instrs {
 			if d, ok := in.(*ssa.DebugRef); ok && !d.IsAddr && d.X == v {
